@@ -90,6 +90,7 @@ def _find_lcas(
     lookup_stamp: Callable[[ObjectID], int],
     min_stamp: int = 0,
     shallows: set[ObjectID] | None = None,
+    reduce: bool = True,
 ) -> list[ObjectID]:
     """Find lowest common ancestors between commits.
 
@@ -210,7 +211,33 @@ def _find_lcas(
             results.append((dt, cmt))
     results.sort(key=lambda x: x[0])
     lcas = [cmt for dt, cmt in results]
+    if reduce and len(lcas) > 1:
+        # The walk is ordered by commit time and stops as soon as only _DNC
+        # commits are queued, so with equal or backward-running timestamps an
+        # ancestor of another candidate can survive. Like git's
+        # remove_redundant(), drop every candidate reachable from another one.
+        lcas = _remove_redundant(lookup_parents, lcas, lookup_stamp, shallows)
     return lcas
+
+
+def _remove_redundant(
+    lookup_parents: Callable[[ObjectID], list[ObjectID]],
+    cands: Sequence[ObjectID],
+    lookup_stamp: Callable[[ObjectID], int],
+    shallows: set[ObjectID] | None = None,
+) -> list[ObjectID]:
+    """Drop the candidates that are an ancestor of another candidate."""
+    cands = list(dict.fromkeys(cands))
+
+    def is_ancestor(a: ObjectID, b: ObjectID) -> bool:
+        # a is always found as a candidate when it is reachable from b
+        return a in _find_lcas(
+            lookup_parents, a, [b], lookup_stamp, shallows=shallows, reduce=False
+        )
+
+    return [
+        c for c in cands if not any(o != c and is_ancestor(c, o) for o in cands)
+    ]
 
 
 # actual git sorts these based on commit times
